@@ -65,7 +65,7 @@ var (
 	editV1       = []string{"v1.0.0", "v1.2.3", "v1.10.0", "v1.9.0", "v0.0.0-20200101000000-abcdefabcdef", "v1.0.0-rc.1", "v2.0.0+incompatible", "v0.3.0"}
 	editV2       = []string{"v2.0.0", "v2.1.0", "v2.10.0", "v2.9.0-pre"}
 	editVGopkg   = []string{"v1.0.0", "v1.2.3", "v1.10.0", "v1.9.0"}
-	editGoVers   = []string{"1.16", "1.20", "1.20.5", "1.21", "1.21.0", "1.22rc1", "1.23.1", "1.9"}
+	editGoVers   = []string{"1.16", "1.20", "1.20.5", "1.21", "1.21.0", "1.22rc1", "1.23.1", "1.9", "1.21rc1", "1.100", "1.23beta2", "1.22.0rc1"}
 	editTool     = []string{"go1.21.0", "default", "go1.22.3-custom", "go1"}
 	editDbgKeys  = []string{"panicnil", "http2client", "asynctimerchan", "x"}
 	editDbgVals  = []string{"0", "1", "2"}
